@@ -638,7 +638,7 @@ fn parse_verify_pack(out: &str) -> Vec<PackEntryInfo> {
     v
 }
 
-fn main() {
+pub fn main() {
     let mut ck = Check::new("C07", "exploration");
     ck.rule("header: kind in {Commit,Tree,Blob,Tag,OfsDelta,RefDelta} x size classes {tiny, 2^(4+7k)+-1 for every k, extremes up to u64::MAX, uniform, log-uniform} x distance classes {tiny, every continuation boundary sum(128^i)+-1, extremes up to 2^63, uniform, log-uniform} x pack offset x trailing garbage (continuation-looking bytes) x read chunking. git-deltas: 1..3 chains of 2..6 blob versions (random edits, block moves, duplicated blocks, swapped halves, empty target; bases 60 B..200 KiB) packed by git pack-objects (with and without --delta-base-offset). crafted-deltas: delta chains (depth 1..3, ofs- and ref-deltas) of copy/insert ops emitted like git's create_delta over bases up to 17 MiB. Non-trivial: header whose size or distance needs a continuation byte; delta with a copy of 0x10000 bytes or a copy offset >= 2^16. Distinct by decoded-case hash.");
     ck.assume(&format!("delta oracle: {} (pack-objects, verify-pack, index-pack)", Git::version()));
